@@ -55,16 +55,17 @@ Section EntryProofs.
     sanitize_rw I p r w = (map data (firstn k (chunks_of (src_data r))), S k, ErrWrite).
   Proof.
     intros r w k Hw Hk. unfold sanitize_rw, chunks_of in *.
-    pose proof (run_from_checked I p (tokenize (src_data r)) init_state) as Hc.
-    unfold run in *. destruct (run_from I p init_state (tokenize (src_data r))) as [cs pn] eqn:E. cbn [fst] in *.
+    pose proof (run_checked I p (tokenize (src_data r))) as Hc.
+    destruct (run I p (tokenize (src_data r))) as [cs pn] eqn:E. cbn [fst] in *.
     rewrite (offer_fault cs w 0 k Hc Hw Hk). reflexivity.
   Qed.
 
   Theorem accepted_is_prefix : forall s k, exists t,
     sanitize_bytes I p s = concat (map data (firstn k (chunks_of s))) ++ t.
   Proof.
-    intros s k. unfold sanitize_bytes, sanitize_tokens, chunks_of.
-    rewrite <- firstn_map. apply firstn_concat_prefix.
+    intros s k. unfold sanitize_bytes, sanitize_tokens, chunks_of, emitted, run.
+    destruct (run_items I p (tokenize s)) as [its pn]. cbn [fst].
+    rewrite <- firstn_map, map_map. cbn [chunk_of wr data]. apply firstn_concat_prefix.
   Qed.
 
   (* without write faults: the outcome is decided by the source *)
@@ -89,11 +90,18 @@ Section EntryProofs.
     rewrite no_write_failure by (intros; reflexivity). rewrite Hr. reflexivity.
   Qed.
 
+  Lemma chunks_concat : forall s, concat (map data (chunks_of s)) = sanitize_bytes I p s.
+  Proof.
+    intros s. unfold chunks_of, sanitize_bytes, sanitize_tokens, emitted, run.
+    destruct (run_items I p (tokenize s)) as [its pn]. cbn [fst]. rewrite map_map. reflexivity.
+  Qed.
+
   (* C15: all entry points compute the same bytes *)
   Lemma sanitize_with_buff_eof : forall s, sanitize_with_buff I p {| src_data := s; src_eof := true |} = sanitize_bytes I p s.
   Proof.
-    intros s. unfold sanitize_with_buff. rewrite no_write_failure by (intros; reflexivity). cbn.
-    reflexivity.
+    intros s. unfold sanitize_with_buff. rewrite no_write_failure by (intros; reflexivity). cbn [src_eof src_data].
+    unfold chunks_of, sanitize_bytes, sanitize_tokens, emitted, run.
+    destruct (run_items I p (tokenize s)) as [its pn]. cbn [fst]. rewrite map_map. reflexivity.
   Qed.
 
   Theorem entry_points_agree : forall s, is_blank s = false ->
@@ -114,6 +122,7 @@ End EntryProofs.
 
 Arguments chunks_of {M U R} I p s.
 Arguments write_failure {M U R} I p r w k.
+Arguments chunks_concat {M U R} I p s.
 Arguments accepted_is_prefix {M U R} I p s k.
 Arguments no_write_failure {M U R} I p r w.
 Arguments read_failure_reported {M U R} I p r w.
